@@ -353,6 +353,88 @@ func IndexScenarios() []Scenario {
 	return out
 }
 
+// NestedScenarios: updates that reach through arrays of sub-documents and nested documents (every clone on the
+// write path must be deep: a shallow one shows as a wrong modified count, a pre-image that already carries the
+// update, or a change to a document that was not addressed), next to reads that fan out over the same arrays.
+func NestedScenarios() []Scenario {
+	var out []Scenario
+	add := func(name string, f func(e *Env) []Call) { out = append(out, Scenario{Name: "nested/" + name, Calls: f}) }
+	it := func(sku string, qty int32) bson.D { return d("sku", sku, "qty", qty) }
+	docs := func() []bson.D {
+		return []bson.D{
+			d("_id", int32(1), "items", bson.A{it("a", 1), it("b", 2)}, "m", d("n", d("k", int32(1))), "t", bson.A{int32(1), int32(2)}),
+			d("_id", int32(2), "items", bson.A{it("a", 5)}, "m", d("n", d("k", int32(2)))),
+			d("_id", int32(3), "items", bson.A{}, "m", d("n", bson.A{d("k", int32(1)), d("k", int32(2))})),
+			d("_id", int32(4), "items", bson.A{it("c", 7), it("a", 7), d("sku", "d", "qty", int32(1), "tags", bson.A{"x", "y"})}),
+			d("_id", int32(5)),
+		}
+	}
+	upds := []struct {
+		u   bson.D
+		afs []bson.D
+	}{
+		{d("$set", d("items.0.qty", int32(5))), nil},
+		{d("$inc", d("items.1.qty", int32(1))), nil},
+		{d("$inc", d("items.$[].qty", int32(1))), nil},
+		{d("$set", d("items.$[x].qty", int32(0))), []bson.D{d("x.sku", "a")}},
+		{d("$mul", d("items.$[x].qty", int32(2))), []bson.D{d("x.qty", d("$gte", int32(5)))}},
+		{d("$set", d("m.n.k", int32(9))), nil},
+		{d("$unset", d("items.0.sku", "")), nil},
+		{d("$rename", d("m.n", "m.o")), nil},
+		{d("$push", d("items", it("z", 3))), nil},
+		{d("$push", d("items.2.tags", "z")), nil},
+		{d("$pull", d("items", d("qty", d("$gte", int32(5))))), nil},
+		{d("$addToSet", d("items", it("a", 1))), nil},
+		{d("$pop", d("items", int32(-1))), nil},
+		{d("$max", d("items.0.qty", int32(6))), nil},
+		{d("$inc", d("items.0.sku", int32(1))), nil}, // fails on the string: nothing may change
+		{d("$set", d("items.0.qty", int32(1), "items.1.qty", int32(1)), "$inc", d("m.n.k", int32(1))), nil},
+	}
+	reads := func(e *Env) []Call {
+		return []Call{
+			e.Find(sns, d("items.qty", d("$gt", int32(1))), d("_id", int32(1)), nil, 0, 0),
+			e.Find(sns, d("items", d("$elemMatch", d("sku", "a", "qty", d("$gte", int32(1))))), d("_id", int32(-1)), nil, 0, 0),
+			e.Find(sns, d("items.sku", d("$in", bson.A{"a", "z"})), nil, d("items.qty", int32(1)), 0, 0),
+			e.Find(sns, d(), d("_id", int32(1)), nil, 0, 0),
+		}
+	}
+	for _, x := range upds {
+		x := x
+		add("update", func(e *Env) []Call {
+			cs := []Call{e.InsertMany(sns, docs(), true),
+				e.Update(sns, false, d("_id", int32(1)), x.u, false, x.afs),
+				e.Update(sns, false, d("_id", int32(1)), x.u, false, x.afs), // the second time it may be a no-op: modified count 0
+				e.Update(sns, true, d(), x.u, false, x.afs),
+				e.FindOneAndUpdate(sns, d("_id", int32(4)), x.u, nil, nil, false, false, x.afs), // pre-image
+				e.FindOneAndUpdate(sns, d("_id", int32(2)), x.u, nil, nil, false, true, x.afs),  // post-image
+				e.BulkWrite(sns, []Model{{Kind: "update", Q: d("_id", int32(4)), Doc: x.u, Afs: x.afs}, {Kind: "insert", Doc: d("_id", int32(1))},
+					{Kind: "update", Q: d(), Doc: x.u, Many: true, Afs: x.afs}}, false)}
+			return append(cs, reads(e)...)
+		})
+	}
+	// the same array value stored into several documents by one call, then changed in one of them
+	add("shared-value", func(e *Env) []Call {
+		sh := bson.A{d("v", int32(1)), d("v", int32(2), "w", bson.A{int32(1)})}
+		cs := []Call{e.InsertMany(sns, docs(), true),
+			e.Update(sns, true, d(), d("$set", d("shared", sh, "deep", d("x", d("y", int32(1))))), false, nil),
+			e.Update(sns, false, d("_id", int32(2)), d("$set", d("shared.0.v", int32(9))), false, nil),
+			e.Update(sns, false, d("_id", int32(3)), d("$inc", d("shared.$[].v", int32(1))), false, nil),
+			e.Update(sns, false, d("_id", int32(4)), d("$push", d("shared.1.w", int32(2))), false, nil),
+			e.Update(sns, false, d("_id", int32(5)), d("$set", d("deep.x.y", int32(2))), false, nil),
+			e.Update(sns, true, d(), d("$push", d("log", d("$each", bson.A{d("n", int32(1))}))), false, nil),
+			e.Update(sns, false, d("_id", int32(1)), d("$set", d("log.0.n", int32(5))), false, nil),
+			e.Update(sns, true, d(), d("$addToSet", d("set", d("$each", bson.A{d("k", int32(1)), d("k", int32(1)), d("k", int32(2))}))), false, nil),
+			e.Update(sns, false, d("_id", int32(1)), d("$inc", d("set.$[].k", int32(1))), false, nil),
+			e.ReplaceOne(sns, d("_id", int32(5)), d("items", bson.A{it("q", 1)}, "shared", sh), false),
+			e.Update(sns, false, d("_id", int32(5)), d("$set", d("items.0.qty", int32(2), "shared.1.v", int32(0))), false, nil),
+			e.Update(sns, false, d("_id", int32(77)), d("$set", d("items", bson.A{it("u", 1)})), true, nil),
+			e.Update(sns, false, d("_id", int32(77)), d("$inc", d("items.0.qty", int32(1))), false, nil),
+		}
+		return append(cs, reads(e)...)
+	})
+	return out
+}
+
 // RunScenarios executes scenarios, a fresh engine each.
 func RunScenarios(scs []Scenario, mk func() *Env, each func(e *Env)) {
 	for i, sc := range scs {
